@@ -155,6 +155,7 @@ ADAPTORS = [
     (r'^(B_)?Header_setNbAnalogByFrame$', _subframes),
     (r'^Point_copy$|^Channel_copy$|^Frame_add', _scenario('copies')),
     (r'^Data_frame_', _scenario('data_frame_semantics', ['-fsanitize=address'])),
+    (r'^c3d_write$', _keyed('data-start', 'header_data_start')),
     (r'^c3d_write$', _scenario('c3d_write_unreported')),
     (r'^c3d_dtor$|^c3d_ctor$', _scenario('c3d_dtor_delete_kind', ['-fsanitize=address'])),
     (r'^Group_read$|^readString$', _scenario('desc_length_signed')),
